@@ -140,7 +140,10 @@ def run(spec, out):
         fn = getattr(einx, case.op)
         base_desc = case.desc()
         edits = ["dim", "drop-root-axis", "dup-root-axis", "remove-kw", "contradict-kw", "remove-tensor", "add-tensor", "insert-token", "kw-type", "bracket-one-occurrence", "bracket-axis-everywhere", "drop-output"]
-        for edit in rng.sample(edits, 4):
+        chosen = rng.sample(edits, 4)
+        if case.family == "dot":
+            chosen.append("dot-third-occurrence")
+        for edit in chosen:
             inputs = [copy_expr(e) for e in case.inputs]
             outputs = None if case.outputs is None else [copy_expr(e) for e in case.outputs]
             tensors = [np.array(t, copy=True) for t in case.tensors]
@@ -247,6 +250,22 @@ def run(spec, out):
                     parents = [i_ for i_ in range(len(ns)) if all(ns[j_] <= ns[i_] for j_ in range(len(ns)) if j_ != i_)]
                     if len(parents) == 0 or len({texts[i_] for i_ in parents}) > 1:
                         proof = "rule:implicit-output-not-unique"
+            elif edit == "dot-third-occurrence":
+                # documented rule of dot: a contracted (bracketed) axis appears in exactly two input expressions. A further input '[k]' / '[k] f'
+                # carrying the same bracketed axis (with a tensor of the right shape) makes it three.
+                brk = sorted({n_.items[0].name for e_ in inputs for n_ in e_ if isinstance(n_, Br) and len(n_.items) == 1 and isinstance(n_.items[0], Ax)})
+                brk = [nm for nm in brk if sum(1 for e_ in inputs if any(isinstance(m_, Ax) and m_.name == nm for m_ in walk(e_))) == 2 and nm in case.sizes]
+                if not brk or outputs is None:
+                    continue
+                nm = rng.choice(brk)
+                if rng.random() < 0.5:
+                    inputs.append([Br([Ax(nm)])])
+                    tensors.append(np.ones((case.sizes[nm],)))
+                else:
+                    inputs.append([Br([Ax(nm)]), Ax("zq")])
+                    tensors.append(np.ones((case.sizes[nm], 2)))
+                    outputs[0].append(Ax("zq"))
+                proof = "rule:contracted-axis-in-exactly-two-inputs"
             elif edit == "kw-type":
                 if not kw:
                     continue
